@@ -1,7 +1,7 @@
 import TxV.Drv.Common
 import TxV.Model.HsDesc
 /-
-Driver for C15.  new <awaitAll 0|1> | reply | ev <upload|uploaded|failed> <own 0|1> <dir>
+Driver for C15.  new <awaitAll 0|1> | reply | lost | ev <upload|uploaded|failed> <own 0|1> <dir>
 Answers `<fired> <subscribed> # <fired> <subscribed>`: the model on the full history, and the
 spec = the same machine fed only this service's own events.
 -/
@@ -23,6 +23,9 @@ def step (st : St2) (line : String) : St2 × String :=
   | ["new", a] => ({ m := { awaitAll := a = "1" }, s := { awaitAll := a = "1" } }, "ok")
   | ["reply"] =>
     let st' : St2 := { m := HsDesc.step st.m .reply, s := HsDesc.step st.s .reply }
+    (st', showSt st'.m ++ " # " ++ showSt st'.s)
+  | ["lost"] =>
+    let st' : St2 := { m := HsDesc.step st.m .lost, s := HsDesc.step st.s .lost }
     (st', showSt st'.m ++ " # " ++ showSt st'.s)
   | ["ev", k, own, d] =>
     match (match k with
